@@ -169,14 +169,17 @@ def expand(c, opslists, family, quick):
             # [kind, key ids, prefill]: every script on an empty table; the string-keyed / generic kinds also on a
             # table pre-filled with 26 entries (64 buckets: the spellings of a case-insensitive key only part
             # ways in the hash from bit 5 on, i.e. from 64 buckets on)
+            # the word-keyed kinds (size_t, pointers) also with the wide key embedding (same low 32 bits, arbitrary
+            # high words; see harness/dsa/htable.cc) on a pre-filled table, where bucket collisions are certain
             if family == "all-calls":
                 combos = [(k, 0) for k in HT_KINDS] + ([("strvp", 26), ("dict", 26)] if quick else [("strvp", 26)])
+                combos += [("szvp", 26, 1), ("vpvp", 26, 1), ("vpstr", 26, 1)]
             elif quick:
                 combos = [("gen", 0), ("strvp", 26)]
             else:
                 combos = [("gen", 26), ("strvp", 26), ("dict", 26)]
-            for k, pre in combos:
-                res.append({"c": c, "create": [k, 3, pre], "ops": ops})
+            for cb in combos:
+                res.append({"c": c, "create": [cb[0], 3, cb[1]] + list(cb[2:]), "ops": ops})
         elif c == "llist":
             res.append({"c": c, "create": [], "ops": ops})
         elif c == "buf":
